@@ -8,141 +8,8 @@
 //            the real encoder, with the genuine (key, nonce, aad, ct, pt) tuples
 // output: the flat encoding of coq/Model/Packet.v enc_outcome; PANIC through the driver.
 use super::p1_common::*;
-use super::super::*;
-use crate::keyset::{DecodedServerCookie, KeySetProvider};
-use crate::nts::AeadAlgorithm;
-use crate::packet::extension_fields::ExtensionFieldData;
-use std::fmt::Write as _;
-use std::sync::{Arc, Mutex};
-
-pub(super) fn load_keyset(id_offset: u32, primary: u32, keys: &[Vec<u8>]) -> std::sync::Arc<crate::keyset::KeySet> {
-    let mut f = Vec::new();
-    f.extend_from_slice(&0u64.to_be_bytes());
-    f.extend_from_slice(&id_offset.to_be_bytes());
-    f.extend_from_slice(&primary.to_be_bytes());
-    f.extend_from_slice(&(keys.len() as u32).to_be_bytes());
-    for k in keys {
-        assert_eq!(k.len(), 64);
-        f.extend_from_slice(k);
-    }
-    let (prov, _) = KeySetProvider::load(&mut f.as_slice(), 8).unwrap();
-    prov.get()
-}
-
-fn material(t: &[&str]) -> String {
-    let id_offset: u32 = t[0].parse().unwrap();
-    let primary: u32 = t[1].parse().unwrap();
-    let n: usize = t[2].parse().unwrap();
-    let keys: Vec<Vec<u8>> = (0..n).map(|i| unhex(t[3 + i])).collect();
-    let r = &t[3 + n..];
-    let alg: u16 = r[0].parse().unwrap();
-    let s2c = unhex(r[1]);
-    let c2s = unhex(r[2]);
-    let ver: u8 = r[3].parse().unwrap();
-    let ncookies: u8 = r[4].parse().unwrap();
-    let ks = load_keyset(id_offset, primary, &keys);
-    let dsc = DecodedServerCookie {
-        algorithm: AeadAlgorithm::from(alg),
-        s2c: real_cipher(&s2c),
-        c2s: real_cipher(&c2s),
-    };
-    let cookie = ks.encode_cookie(&dsc);
-    let mut out = String::new();
-    write!(out, "cookie {} ", hex(&cookie)).unwrap();
-    // the genuine cookie tuple (layout of encode_cookie: id 4, length 2, nonce 16, ciphertext)
-    let mut pt = Vec::new();
-    pt.extend_from_slice(&alg.to_be_bytes());
-    pt.extend_from_slice(&s2c);
-    pt.extend_from_slice(&c2s);
-    push_table_entry(&mut out, &keys[primary as usize], &cookie[6..22], &[], &cookie[22..], &pt);
-    // request under c2s
-    let (req, _) = if ver == 5 {
-        NtpPacket::nts_poll_message_v5(&cookie, ncookies, PollInterval::from_byte(6))
-    } else {
-        NtpPacket::nts_poll_message(&cookie, ncookies, PollInterval::from_byte(6))
-    };
-    let log = Arc::new(Mutex::new(Vec::new()));
-    let rec = Recording { inner: real_cipher(&c2s), log: log.clone() };
-    let b = serialize_capped(&req, &rec, 4096, None).unwrap();
-    write!(out, "request {} ", hex(&b)).unwrap();
-    for (nn, a, c, p) in log.lock().unwrap().iter() {
-        push_table_entry(&mut out, &c2s, nn, a, c, p.as_ref().unwrap());
-    }
-    // response under s2c: uid authenticated, fresh cookies encrypted
-    let uid = req
-        .efdata
-        .authenticated
-        .iter()
-        .find(|f| matches!(f, ExtensionField::UniqueIdentifier(_)))
-        .cloned()
-        .unwrap();
-    let mut authenticated = vec![uid];
-    if ver == 5 {
-        authenticated.push(ExtensionField::DraftIdentification(std::borrow::Cow::Borrowed(v5::DRAFT_VERSION)));
-    }
-    let mut header = req.header;
-    match &mut header {
-        NtpHeader::V3(h) | NtpHeader::V4(h) => h.mode = NtpAssociationMode::Server,
-        NtpHeader::V5(h) => h.mode = v5::NtpMode::Response,
-    }
-    let resp = NtpPacket {
-        header,
-        efdata: ExtensionFieldData {
-            authenticated,
-            encrypted: (0..ncookies).map(|_| ExtensionField::NtsCookie(ks.encode_cookie(&dsc).into())).collect(),
-            untrusted: vec![],
-        },
-        mac: None,
-    };
-    let log = Arc::new(Mutex::new(Vec::new()));
-    let rec = Recording { inner: real_cipher(&s2c), log: log.clone() };
-    let b = serialize_capped(&resp, &rec, 4096, None).unwrap();
-    write!(out, "response {} ", hex(&b)).unwrap();
-    for (nn, a, c, p) in log.lock().unwrap().iter() {
-        push_table_entry(&mut out, &s2c, nn, a, c, p.as_ref().unwrap());
-    }
-    out
-}
 
 #[test]
 fn verif_c23_driver() {
-    crate::verif_hook::drive(|t| {
-        let mut out = String::new();
-        match t[0] {
-            "N" => {
-                let data = unhex(t[1]);
-                let r = NtpPacket::deserialize(&data, &NoCipher);
-                push_outcome(&mut out, &r);
-            }
-            "C" => {
-                let data = unhex(t[1]);
-                let k: usize = t[2].parse().unwrap();
-                let table = (0..k)
-                    .map(|i| (unhex(t[3 + 4 * i]), unhex(t[4 + 4 * i]), unhex(t[5 + 4 * i]), unhex(t[6 + 4 * i])))
-                    .collect();
-                let cipher = TableCipher { key: vec![1], table };
-                let r = NtpPacket::deserialize(&data, &cipher);
-                push_outcome(&mut out, &r);
-            }
-            "R" => {
-                let key = unhex(t[1]);
-                let data = unhex(t[2]);
-                let cipher = real_cipher(&key);
-                let r = NtpPacket::deserialize(&data, &*cipher);
-                push_outcome(&mut out, &r);
-            }
-            "S" => {
-                let id_offset: u32 = t[1].parse().unwrap();
-                let n: usize = t[2].parse().unwrap();
-                let keys: Vec<Vec<u8>> = (0..n).map(|i| unhex(t[3 + i])).collect();
-                let data = unhex(t[3 + n]);
-                let ks = load_keyset(id_offset, 0, &keys);
-                let r = NtpPacket::deserialize(&data, ks.as_ref());
-                push_outcome(&mut out, &r);
-            }
-            "MK" => out = material(&t[1..]),
-            _ => out.push_str("BADOP"),
-        }
-        out
-    });
+    crate::verif_hook::drive(|t| decode_op(t));
 }
